@@ -12,6 +12,9 @@ Streams
             does) - reaches the branches a real run never shows (ice in column 0, ties);
             dyadic values, compared with the model at Float AND at Rat (exact stream).
   notrun    accessors of an object that has not been run (ValueError branches).
+  loop      the statistics written INSIDE the loop: a real run with recorded dice against the Lean loop
+            model `Flake.run` (t_nucleation, T_nucleation, t_solidification and every column) - the
+            tie of the theorems about `finalV` / `sigmaRow` (shared with C01/C03).
 """
 from __future__ import annotations
 
@@ -41,6 +44,8 @@ THEOREMS = [
     _T("fromStates_times_eq", "nucleationTimes/solidificationTimes(fromStates=True) equal the recorded ones for every stored "
        "vial whose ice is visible in a stored column (per stored vial; the scatter into the storage mask and the "
        "group selection are executable model code compared on every run, not re-proved)"),
+    _T("fromStates_times_eq_all", "full recording: the accessor model applied to the run's state matrix returns the run's "
+       "t_nucleation / t_solidification arrays (whole vectors)"),
     _T("fromStates_Tnuc_within_one_step", "nucleationTemperatures(fromStates=True) = recorded T_nuc minus the sensible "
        "update q/hl*dt of the nucleating step (equality is false)", "partial"),
     _T("fromStates_Tnuc_counterexample", "REFUTED 'states-derived nucleation temperature equals the recorded one' (K2)", "counterexample"),
@@ -224,7 +229,18 @@ def _physics(S, obs):
     return exp
 
 
+def _loop_impl(case):
+    import flakeutil as fu
+
+    try:
+        return fu.run_real(case)
+    except Exception as e:
+        return {"raise": core.exc_class(e), "stage": "run"}
+
+
 def run_impl(case):
+    if case["kind"] == "loop":
+        return _loop_impl(case)
     import contextlib
     import io
 
@@ -341,6 +357,10 @@ def run_model(drv, case):
         obs = run_impl(case)
     if obs.get("raise"):
         return {"raise": obs["raise"]}
+    if case["kind"] == "loop":
+        import flakeutil as fu
+
+        return fu.run_model(drv, case, obs)
     out = {"float": _model_call(drv, obs, case, "float")}
     if case.get("exact"):
         out["rat"] = _model_call(drv, obs, case, "rat")
@@ -377,6 +397,11 @@ def _cmp_exact(name, a, b, dis):
 
 def compare(case, impl, model):
     dis = []
+    if case["kind"] == "loop" and not (impl.get("raise") or model.get("raise")):
+        import flakeutil as fu
+
+        # the statistics written inside the loop (and the columns they are read off) vs the loop model
+        return fu.compare_run(case, impl, model)
     if impl.get("raise") or model.get("raise"):
         if impl.get("raise") != model.get("raise"):
             dis.append(f"exception: impl {impl.get('raise')} vs model {model.get('raise')}")
@@ -586,6 +611,8 @@ def classify(case, impl):
     tags = [f"kind={case['kind']}"]
     if impl.get("raise"):
         return tags + [f"raise={impl['raise']}"]
+    if case["kind"] == "loop":
+        return tags
     if case["kind"] in ("real", "laststep"):
         n = len(impl["tnuc"])
         nn = sum(1 for x in impl["tnuc"] if x is not None)
@@ -621,6 +648,8 @@ def nontrivial(case, impl):
         return False
     if case["kind"] in ("real", "laststep"):
         return any(x is not None for x in impl["tnuc"])
+    if case["kind"] == "loop":
+        return any(not math.isnan(x) for x in impl["tNuc"])
     return case["kind"] == "fake"
 
 
@@ -647,7 +676,7 @@ def _real(rng, big=False):
     ramp = (start - stop) / rate + sum(h[1] for h in holds)
     # time for the vials to follow the shelf ~ a few hundred seconds * 1000/K
     need = ramp + 300 * 1000 / K
-    t_tot = need * rng.choice([0.25, 0.5, 0.8, 1.0, 1.5, 2.5])
+    t_tot = need * rng.choice([0.25, 0.5, 0.65, 0.8, 0.9, 1.0, 1.2, 1.5, 2.5])
     nmax = 3000 if big else 1200
     t_tot = min(t_tot, nmax * dt)
     if rng.random() < 0.3:
@@ -727,7 +756,7 @@ def _notrun(rng):
 
 
 def cases(rng, tier):
-    n_real, n_last, n_fake, n_not = (140, 24, 400, 6) if tier == "quick" else (1500, 200, 6000, 20)
+    n_real, n_last, n_fake, n_not, n_loop = (260, 40, 400, 6, 24) if tier == "quick" else (2500, 300, 6000, 20, 300)
     for _ in range(n_real):
         yield _real(rng, big=(tier != "quick"))
     for _ in range(n_last):
@@ -736,6 +765,12 @@ def cases(rng, tier):
         yield _fake(rng)
     for _ in range(n_not):
         yield _notrun(rng)
+    from props import c10
+
+    for _ in range(n_loop):
+        c = c10._pair(rng)
+        c["kind"] = "loop"
+        yield c
 
 
 def widen(rng, tier):
